@@ -40,7 +40,19 @@ type C17Case struct {
 }
 
 var c17OpKinds = []string{"authn-doc", "authn-str", "logout-req", "logout-resp", "auth-url", "auth-url-redirect", "logout-url", "auth-post", "auth-post-doc", "logout-post", "logout-resp-post", "metadata", "metadata-slo",
-	"validate", "retrieve", "logout-validate-req", "logout-validate-resp", "decode-base", "decode-logout", "signing-cert", "sign-el"}
+	"validate", "retrieve", "logout-validate-req", "logout-validate-resp", "decode-base", "decode-logout", "signing-cert", "sign-el",
+	// builders handed ONE caller-made document shared by every call of the case (they only read it)
+	"shared-auth-url", "shared-logout-url", "shared-auth-post", "shared-serialize"}
+
+// newSharedDoc: a document the caller parsed itself (etree default write settings, not the canonical ones the
+// library's own documents carry) whose text and attribute values serialise differently under the two settings.
+func newSharedDoc() *etree.Document {
+	d := etree.NewDocument()
+	if err := d.ReadFromString(`<samlp:AuthnRequest xmlns:samlp="urn:oasis:names:tc:SAML:2.0:protocol" ID="_shared" Version="2.0"><x a="1&gt;2 'q'">it's "quoted" &amp; more</x></samlp:AuthnRequest>`); err != nil {
+		panic(err)
+	}
+	return d
+}
 
 var c17InputsOnce sync.Once
 var c17Inputs []string
@@ -222,10 +234,21 @@ type heldVal struct {
 }
 
 type holder struct {
-	mu   sync.Mutex
-	list []held
-	docs []heldDoc
-	vals []heldVal
+	mu     sync.Mutex
+	list   []held
+	docs   []heldDoc
+	vals   []heldVal
+	shared *etree.Document
+	once   sync.Once
+}
+
+// sharedDoc returns the case's shared caller document (a private one when there is no holder).
+func (hd *holder) sharedDoc() *etree.Document {
+	if hd == nil {
+		return newSharedDoc()
+	}
+	hd.once.Do(func() { hd.shared = newSharedDoc() })
+	return hd.shared
 }
 
 // keepVal holds a returned result structure together with its present JSON rendering.
@@ -371,6 +394,30 @@ func (op C17Op) runHold(sp *saml2.SAMLServiceProvider, hd *holder) string {
 		}
 		hd.keep(op.Kind, b)
 		return blankPost(b)
+	case "shared-auth-url", "shared-logout-url", "shared-auth-post", "shared-serialize":
+		d := hd.sharedDoc()
+		switch op.Kind {
+		case "shared-auth-url":
+			u, err := sp.BuildAuthURLRedirect(op.Arg, d)
+			if err != nil {
+				return "error: " + err.Error()
+			}
+			return blankURL(u)
+		case "shared-logout-url":
+			u, err := sp.BuildLogoutURLRedirect(op.Arg, d)
+			if err != nil {
+				return "error: " + err.Error()
+			}
+			return blankURL(u)
+		case "shared-auth-post":
+			b, err := sp.BuildAuthBodyPostFromDocument(op.Arg, d)
+			if err != nil {
+				return "error: " + err.Error()
+			}
+			return string(b)
+		}
+		sdoc, _ := d.WriteToString()
+		return sdoc
 	case "metadata":
 		md, err := sp.Metadata()
 		if err != nil {
@@ -725,6 +772,23 @@ func TestC17_GridFirstUse(t *testing.T) {
 
 // TestC17_GridManyBuilds: several goroutines build thousands of messages on one shared SP (the number of
 // generated identifiers crosses 4096 / 8192 / 16384), under the race detector; all IDs distinct.
+// TestC17_GridSharedDoc: eight goroutines hand ONE caller-made document to the redirect / POST builders (and
+// serialise it themselves) at the same time; the builders only read it.
+func TestC17_GridSharedDoc(t *testing.T) {
+	kinds := []string{"shared-auth-url", "shared-auth-post", "shared-serialize", "shared-logout-url"}
+	var cases []C17Case
+	for v := 0; v < 3; v++ {
+		for rep := 0; rep < 8; rep++ {
+			c := C17Case{SP: c17SP(v)}
+			for g := 0; g < 8; g++ {
+				c.Ops = append(c.Ops, []C17Op{{Kind: kinds[(g+rep)%4], Arg: "state"}, {Kind: kinds[(g+rep+1)%4], Arg: "r"}})
+			}
+			cases = append(cases, c)
+		}
+	}
+	h.RunCases(t, "C17.conc", cases, checkC17Conc)
+}
+
 func TestC17_GridManyBuilds(t *testing.T) {
 	type manyCase struct {
 		Goroutines int `json:"goroutines"`
